@@ -38,7 +38,10 @@ import random
 import time as _time
 from collections import Counter, defaultdict
 
+import logging
+
 import deal
+import logzero
 
 import comb_spec_searcher.rule_db.base as base
 import comb_spec_searcher.tree_searcher as ts
@@ -147,8 +150,6 @@ def tree_error(tree, d, root, iterative=False, lab=lambda x: x):
             if iterative and l != root:
                 return "iterative-recursion-to-root-only", f"leaf {l} refers back to an expanded node, tree {tree}"
             continue
-        if iterative and l == root:
-            return "iterative-root-has-no-rule", f"root {l} occurs only as leaf in tree {tree}"
         if () not in d.get(l, ()):
             return "no-label-without-rule", f"leaf {l} has no rule () and is expanded nowhere in tree {tree}"
     if n != len(tree):
@@ -421,7 +422,10 @@ def check_dict(d, seed):
             it = ts.iterative_prune(copy.deepcopy(d), root)
             evals += 1
             if root is not None:
-                ts.iterative_proof_tree_finder(it, root)
+                try:
+                    ts.iterative_proof_tree_finder(it, root)
+                except ValueError:
+                    pass  # documented answer for an underivable root; judged by the contract
                 evals += 1
         nontrivial = False
         for root in labels:
@@ -639,8 +643,14 @@ def _rand_rule(rng, nlabels, max_arity, p_leaf):
     return (p, tuple(sorted(rng.randrange(nlabels) for _ in range(a))))
 
 
+def _quiet():
+    # importing comb_spec_searcher resets logzero to INFO; the finders log every call
+    logzero.loglevel(logging.CRITICAL)
+
+
 def _worker(task):
     kind = task[0]
+    _quiet()
     COUNTS.clear()
     viols, evals, nontriv, cases, samples = [], 0, 0, 0, []
     seen = set()
@@ -722,6 +732,7 @@ def _slices(n, pieces):
 
 
 def run(tier, seed):
+    _quiet()
     tasks = []
     if tier == "quick":
         for k in (1, 2, 3):
@@ -810,6 +821,7 @@ def _dedupe(viols):
 
 def replay(violation):
     w = violation["witness"]
+    _quiet()
     COUNTS.clear()
     with installed():
         if w["part"] == "A":
